@@ -68,10 +68,51 @@ func ruleVersionByte(c *eng.Ctx) {
 		c.Bad(rule, "compressUnpacked:version-prefix", wfn.Pos(), "EncodeAll is not given a one-byte constant prefix as destination")
 		return
 	}
-	// the compressed form is returned
-	for _, r := range eng.Returns(wfn) {
-		_ = r
+	// the writer leaves the payload unwrapped exactly where the reader expects no wrapper:
+	// in a version-1 repository. Any other return hands out the version byte + zstd frame.
+	wVer := c.P.Field(pkgRestic+".Config", "Version")
+	v1Edges := func(fn *ssa.Function) []eng.EdgeKey {
+		return eng.CmpEdges(fn, func(op token.Token, x, y ssa.Value) (bool, bool) {
+			if wVer == nil || !eng.LoadsField(x, wVer) {
+				return false, false
+			}
+			if v, isK := eng.ConstInt(y); !isK || v != 2 {
+				return false, false
+			}
+			switch op {
+			case token.LSS:
+				return true, true
+			case token.GEQ:
+				return true, false
+			}
+			return false, false
+		})
 	}
+	encs := c.P.CallsTo(wfn, encodeAll)
+	for _, r := range eng.Returns(wfn) {
+		v := eng.RetVal(r, 0)
+		switch {
+		case eng.IsNilConst(v):
+		case eng.IsParam(wfn, "p")(v):
+			c.MustPass(rule, "compressUnpacked:raw-only-in-v1-repository", eng.Entry(wfn), r, eng.NewCut().AddEdges(v1Edges(wfn)...), "r.cfg.Version < 2 (decompressUnpacked treats a v2 file without the version byte as raw only if it starts with '[' or '{')")
+		default:
+			isEnc := false
+			for _, e := range encs {
+				if resultOf(v, e, 0) {
+					isEnc = true
+				}
+			}
+			c.Check(isEnc, rule, "compressUnpacked:returns-wrapped-form", r.Pos(), "the value returned for a v2 repository is the result of EncodeAll (version byte + zstd frame)")
+		}
+	}
+	// … and the reader skips the wrapper handling only for version 1
+	okReaderV1 := false
+	for _, r := range eng.Returns(rfn) {
+		if eng.IsParam(rfn, "p")(eng.RetVal(r, 0)) && eng.FindPath(eng.Entry(rfn), r, eng.NewCut().AddEdges(v1Edges(rfn)...)) == nil {
+			okReaderV1 = true
+		}
+	}
+	c.Check(okReaderV1, rule, "decompressUnpacked:raw-in-v1-repository", rfn.Pos(), "decompressUnpacked has a raw return that is taken exactly for r.cfg.Version < 2")
 	// reader
 	isB0 := firstByteOf(rfn, "p")
 	consts := comparedConsts(rfn, isB0)
